@@ -321,6 +321,7 @@ def oracle_c07(evs, term, case):
     futures = set()             # tasks spawned as futures: an aborted one never reaches the end of its body, a detached one
                                 # may be cut off before Wrapper::finish has run its destructors
     ahandles = {}               # task -> tids of the futures it spawned, in order (the h of `aw<h>`)
+    inline_bodies = any(op_.startswith(("bo", "co")) for b_ in case.get("bodies", []) for op_ in b_)
     W = 2 ** 64
     for i, e in enumerate(evs):
         if e.kind != "O":
@@ -331,8 +332,10 @@ def oracle_c07(evs, term, case):
         if e.tag == 31:
             futures.add(e.vals[0])
             ahandles.setdefault(t, []).append(e.vals[0])
-        elif e.tag == 32 and op and op.startswith("aw"):
+        elif e.tag == 32 and op and op.startswith("aw") and not inline_bodies:
             # an awaited JoinHandle resolves (Ok or Cancelled) only after Wrapper::finish ran the task's destructors
+            # (handle numbers are per body instance: with inline bodies - block_on, call_once closures - a task runs several
+            # instances and the h of `aw<h>` cannot be resolved from the trace; such programs are left to the correspondence)
             try:
                 c = ahandles.get(t, [])[int(op[2:])]
             except (IndexError, ValueError):
